@@ -24,6 +24,8 @@ fn cheap(node: &Node, row: i32, column: i32) -> bool {
             }
         }
         Node::LambdaDefKind { .. } | Node::LambdaCallKind { .. } => ok = false,
+        // the range operator builds its range at run time (`A1 : XFD1048576`)
+        Node::OpRangeKind { .. } => ok = false,
         _ => {}
     });
     if !ok {
